@@ -125,9 +125,26 @@ func c06Plan(seed int64, idx int) (c06Run, [][]*c06Ex) {
 		run.PerCaller = 24
 	}
 	plan := make([][]*c06Ex, run.Callers)
+	// every sixth run: many callers asking back to back, complete replies of 4..40 KiB without any
+	// pause, generous deadlines - connections change hands as fast as they can while large replies
+	// are still being decoded
+	bigRun := idx%6 == 5
+	if bigRun {
+		run.Variant = "reuse"
+		run.Callers = gen.Pick(r, []int{8, 16, 32})
+		run.PerCaller = 96 / run.Callers
+		plan = make([][]*c06Ex, run.Callers)
+	}
 	for ci := range plan {
 		for k := 0; k < run.PerCaller; k++ {
 			ex := &c06Ex{Caller: ci, K: k, Name: fmt.Sprintf("r%d-c%d-k%d.c06.test.", idx, ci, k), CallerID: uint16(r.Intn(65536))}
+			if bigRun {
+				ex.RMode, ex.DMode, ex.GapMode = "whole-big", "generous", "short"
+				ex.DeadUs = 2000000
+				ex.act = scripted.Action{Tag: ex.RMode, Leg: scripted.LegTCP, PadTo: r.Range(4000, 40000)}
+				plan[ci] = append(plan[ci], ex)
+				continue
+			}
 			frameLen := 2 + 12 + len(ex.Name) + 1 + 4 + 28
 			a := scripted.Action{}
 			// server side
